@@ -379,7 +379,7 @@ func (g *G) debugInfo() {
 	// subprograms on function definitions
 	var retained []*am.MDField
 	for _, f := range m.Funcs {
-		if f.Blocks == nil || !g.chance("hassp", 2, 3) {
+		if f.Blocks == nil || !g.twins[f] && !g.chance("hassp", 2, 3) {
 			continue
 		}
 		sp := d.node("DISubprogram", true)
@@ -411,7 +411,7 @@ func (g *G) debugInfo() {
 			}
 		}
 		var rn []*am.MDField
-		if g.chance("localvar", 1, 2) {
+		if g.twins[f] || g.chance("localvar", 1, 2) {
 			lv := d.node("DILocalVariable", false)
 			d.fill(lv, map[string]*am.MDField{"scope": ref(sp), "arg": nil})
 			d.lvars = append(d.lvars, lv)
@@ -588,8 +588,40 @@ func (d *di) dbgIntrinsics(f *am.Fun, lv *am.MDNode) {
 		decl = &am.Fun{Name: "llvm.dbg.value", Ret: am.TVoid, Decl: true, Params: []*am.Param{{T: am.TMD}, {T: am.TMD}, {T: am.TMD}}}
 		g.M.Funcs = append(g.M.Funcs, decl)
 	}
-	for _, b := range f.Blocks {
+	// a variadic location list over the first parameter: `metadata !DIArgList(T %p, T %p)`, the spelling
+	// that is identical in every function whose first parameter is unnamed and has the same type
+	var argList *am.Inst
+	if len(f.Params) > 0 && len(f.Blocks) > 0 && !g.off("di-arglist") && (g.twins[f] || g.chance("diarglist", 1, 2)) {
+		p0 := f.Params[0]
+		if p0.T.K == am.Int || p0.T.K == am.Float || p0.T.K == am.Ptr {
+			pv := func() *am.MDField { return &am.MDField{K: am.MDLocalValue, Local: &am.Value{K: am.VParam, P: p0}} }
+			pl := pv
+			if g.twins[f] {
+				p1 := f.Params[1]
+				pl = func() *am.MDField { return &am.MDField{K: am.MDLocalValue, Local: &am.Value{K: am.VParam, P: p1}} }
+				g.feat("di/DIArgList-in-twin-functions")
+			}
+			al := &am.MDNode{ID: -1, Kind: "DIArgList", Fields: []*am.MDField{pv(), pl()}}
+			ex := &am.MDNode{ID: -1, Kind: "DIExpression", Fields: []*am.MDField{
+				{K: am.MDEnum, Str: "DW_OP_LLVM_arg"}, {K: am.MDInt, Int: big.NewInt(0)},
+				{K: am.MDEnum, Str: "DW_OP_LLVM_arg"}, {K: am.MDInt, Int: big.NewInt(1)},
+				{K: am.MDEnum, Str: "DW_OP_plus"}, {K: am.MDEnum, Str: "DW_OP_stack_value"}}}
+			argList = &am.Inst{Op: "call", T: am.TVoid, FnT: decl.FuncType(),
+				Callee: &am.Value{K: am.VConst, C: &am.Const{K: am.CGlobal, T: decl.PtrType(), Ref: decl}},
+				Args: []*am.Value{
+					{K: am.VMetadata, MD: &am.MDField{K: am.MDInline, Node: al}},
+					{K: am.VMetadata, MD: ref(lv)},
+					{K: am.VMetadata, MD: &am.MDField{K: am.MDInline, Node: ex}},
+				}}
+			argList.ArgAttrs = make([][]string, 3)
+			g.feat("di/DIArgList")
+		}
+	}
+	for bi, b := range f.Blocks {
 		var out []*am.Inst
+		if bi == 0 && argList != nil {
+			out = append(out, argList)
+		}
 		for _, in := range b.Insts {
 			out = append(out, in)
 			if !in.HasValue() || in.Op == "phi" || in.Op == "landingpad" || in.T.K == am.Token || !g.chance("dbgvalue", 1, 4) {
